@@ -70,6 +70,59 @@ CHECKS['C42'] = (
     'Real process creation and pipe back-pressure are not explored; pool '
     'size and time-out are set on the pool object; virtual time.')
 
+B = 'enum'
+CHECKS['C11'] = (B, 'exploration', 'bounded-exhaustive enumeration vs truth table', '6/C11',
+    'All graph-declarable task definitions over the standard outputs and 2 (thorough 3) custom outputs, produced by real graph parses, x all subsets of completed outputs: TaskOutputs.is_complete() vs a truth table of the documented default rule; plus all and/or user expressions <=4 (5) leaves x all subsets vs an independent evaluator. Exhaustive to the bounds.',
+    'Engine-B part only: the scheduler pool removal/retention (A leg) rides on C03; finished sets only for the default rule; the submitted?-only tolerance corner is not judged.')
+CHECKS['C12'] = (B, 'exploration', 'bounded-exhaustive expression enumeration vs truth table', '6/C12',
+    'Every and/or completion expression up to 5 (thorough 6) leaves over six outputs is classified by the real get_optional_outputs / iter_required_messages, run through skip-mode process_outputs on a real TaskProxy, and (<=4/5 leaves x all 216 graph optionality declarations) through the real _check_completion_expression plus a cross-section of full WorkflowConfig loads; compared with a brute-force truth table of an independently parsed tree. Exhaustive to the bound.',
+    'Validation judged in the stated direction only (accepted => consistent); vacuous and succeeded-and-failed-required expressions not judged for skip mode.')
+CHECKS['C13'] = (B, 'exploration', 'bounded-exhaustive enumeration with a Python AST reference against real Dependency/Prerequisite objects', '6/C13',
+    'Exhaustive over 1-4 atom trigger expressions drawn from collision pools (names, labels, messages, negative / time-zoned / expanded-year points), all registration orders, all satisfaction subsets, all single-step satisfy_me sequences, plus about 185 real WorkflowConfig loads.',
+    'Decided up to the bounds; messages containing operators excluded.')
+CHECKS['C14'] = (B, 'exploration', 'bounded-exhaustive rendering equivalence plus mutation against an independent strict tokenizer', '6/C14',
+    '1189 (thorough 8232) graph ASTs x every combination of up to 2 (thorough 3) presentation edits, 10k colliding-name expressions, and all one-character mutants of 6 base lines at 4 line positions, through the real GraphParser.',
+    'A recorded-optionality difference counts only when confirmed through WorkflowConfig; ambiguous mutants excluded; one known finding (malformed line only rejected when last).')
+CHECKS['C15'] = (B, 'exploration', 'bounded-exhaustive enumeration with truth-table comparison against a member-level reference', '6/C15',
+    'All 14 family qualifiers x sizes 1-3 x colliding names x offsets x mixtures x right-side forms (4.3k, thorough 16.9k) through the real GraphParser, plus 224 (thorough 560) real config loads with families nested via inherit.',
+    'Bounds as stated; rejected inputs counted, not judged.')
+CHECKS['C17'] = ('hist', 'model_checking', 'breadth-first exploration of query histories with cache-state deduplication, plus bounded-exhaustive recurrence enumeration', '6/C17',
+    'Every generated recurrence (all format alternatives; absolute, relative and truncated points; exclusion points and sequences) x 4 calendars x 2 time zones is built through the real ISO8601Sequence. Every single query in a window, and every query history up to depth 2 (every sequence) or 3 (thorough), is executed on a pristine object; answers compared with the harness-enumerated progression minus exclusions and with the fresh-object answer.',
+    'Answers judged against the list only inside [ICP, FCP]; get_prev_point on-progression only; degenerate fully-excluded tails skipped.')
+CHECKS['C18'] = (B, 'exploration', 'bounded-exhaustive pair/triple enumeration against field-generated reference values', '6/C18',
+    'For the integer type and 14 (quick) / 28 (thorough) calendar x time-zone x expanded-year x format configurations, every ordered pair of a field-generated point catalogue is compared with all six operators and hashed through the real classes; trichotomy and transitivity over all triples; every 3-subset sorted; standardise twice; every point x fixed-length interval added then subtracted.',
+    'Decided for the catalogues only. Zone-less or strptime formats, month/year intervals and cross-type comparisons out of scope. Two known findings (ISO hash of unstandardised points; isodatetime ordinal-date rollover).')
+CHECKS['C23'] = (B, 'exploration', 'independent grammar renderer; format/parse/re-format, eq/hash, relative-vs-absolute and legacy-upgrade compared with it', '6/C23',
+    'All 135 identifier structures x all adjacent-field value pairs over a 26/100-value pool plus the diagonal; all legacy forms over digit-led cycles <=2/3 chars, through the real Tokens/tokenise/detokenise/upgrade_legacy_ids/_parse_cli.',
+    'Adjacent-field pairs (not the full product); values containing / : ~ newline or edge blanks excluded.')
+CHECKS['C24'] = (B, 'exploration', 'bounded-exhaustive AST-shape enumeration with side-effect canaries', '6/C24',
+    'All context chains (99 leaf node kinds x 63 parent-field contexts, depth <=2, thorough <=3) are run through the real CompletionEvaluator, RankingExpressionEvaluator and evaluators built by restricted_evaluator, with canary variables; forbidden node => configured error and empty canary log, else outcome and log equal Python\'s own evaluation with empty recording builtins; 237 unsupplied names probed.',
+    'Bounded language of context chains, not all ASTs; resource exhaustion not covered.')
+CHECKS['C34'] = (B, 'exploration', 'bounded-exhaustive enumeration of parameterised graph lines and runtime headings against an itertools.product reference', '6/C34',
+    'With a fixed pool of 4 (thorough 6) integer/string parameters, every 1- and 2-node graph line over all <...> groups of <=2 items (plain, fixed value, out-of-range value, offsets, both orders), 3-node lines, multi-group nodes and every runtime heading form are expanded by the real GraphExpander/NameExpander and compared with the Cartesian product over the parameters used.',
+    'Decided for this pool and grammar only. GraphParser treatment of a removed node alone on an arrow side is not judged.')
+CHECKS['C35'] = (B, 'exploration', 'bounded-exhaustive enumeration of inheritance hierarchies against Python\'s own MRO', '6/C35',
+    'Every acyclic runtime hierarchy on <=5 (thorough <=6) namespaces with <=3-4 ordered parents is linearized by the real C3.mro for every namespace and compared with type(name, bases, {}).__mro__; TypeError in Python requires rejection by cylc. A fixed stride goes through a real WorkflowConfig; all small cyclic hierarchies must be rejected.',
+    'Decided up to the size bound; the WorkflowConfig path covers a stride.')
+CHECKS['C36'] = (B, 'exploration', 'bounded-exhaustive combination of configuration features; parse, dump, re-parse, compare', '6/C36',
+    'Every combination of <=3 (thorough <=4) of 43 concrete feature atoms (quoting, multi-line strings, comments, backslash continuation, nested %include, Jinja2, repeated sections, CRLF/tabs) on a valid flow.cylc is parsed by the real fileparse.parse, the processed file is parsed again, and the dictionaries compared (differing pairs again as validated configurations).',
+    'Decided for this catalogue only. Sources cylc rejects are not judged. The plugin entry-point scan is memoised by the harness.')
+CHECKS['C37'] = (B, 'exploration', 'bounded-exhaustive literal enumeration through the real store and restore code', '6/C37',
+    'Every Python literal of a bounded grammar (96 atoms incl. huge/special numbers and all string quoting forms, in containers to depth 2/3) is accepted through the real CLI parser, written by the real first-start DB path, read back by the scheduler restart callback, get_template_vars_from_db and a second restart, and compared in value and type; every (stored, CLI) pair checked for CLI precedence.',
+    'Engine-B part only; complex zero sign, nan, -S/-z sources not judged.')
+CHECKS['C39'] = (B, 'exploration', 'every accepted name resolved with os.path arithmetic; component-wise strict-descendant and reserved-component test', '6/C39',
+    'All names of <=4 (quick) / <=5 (thorough) symbols over a 23-symbol alphabet of path-significant characters and every reserved directory name, through validate_workflow_name / check_reserved_dir_names.',
+    'Decided up to that length only; containment judged on normalised paths.')
+CHECKS['C40'] = (B, 'exploration', 'DBs written via the real DAO, queried via the real checker and xtrigger; hand matcher; multiset comparison', '6/C40',
+    'All names/cycles <=3 chars x all patterns <=3/4 symbols; all DBs of <=2/3 instances from a 24-instance menu x 864 queries; one-instance DBs through the workflow_state xtrigger function.',
+    'Integer-cycling DBs only; result order not judged.')
+CHECKS['C41'] = (B, 'exploration', 'bounded-exhaustive value enumeration with real-shell evaluation', '6/C41',
+    'Every value of length <=3/4 over an 11/16-character alphabet plus ~user forms is rendered by the real job-file writer, executed by real bash, and compared with what a child process sees; every ordering of three variables with $X, ${X}, $(printenv X) references checked for definition order.',
+    'Fragment runs standalone without errexit; : $ backquote backslash and double quote excluded; parser layer not covered.')
+CHECKS['C47'] = (B, 'exploration', 'bounded-exhaustive configuration enumeration through the real config loader; choice-point enumeration for random selection', '6/C47',
+    'Every ordered sequence of platform headings from an alphabet of literal, regex, alternation, comma-list and {m,n} forms, written to real global.cylc files and loaded by the real parser, resolved for every name of a small universe and compared with a hand-written matcher (last full match wins). Every host list, bad-host subset and method, and every group member list, with all random choices enumerated.',
+    'Up to 3-4 headings, 3-4 hosts, 3 group members. Re-opened headings not judged.')
+
 NOT_BUILT_REASON = (
     'check not built yet in this session (designed in DESIGN.md section 6); '
     'no verdict is claimed')
